@@ -554,6 +554,20 @@ func writesInput(f *ssa.Function, in ssa.Instruction) string {
 				}
 			}
 		}
+		// destination-writing calls of the crypto interfaces: Open/Seal append to dst (dst[:0] reuses its storage),
+		// XORKeyStream / Encrypt / Decrypt write dst in place
+		if cc.IsInvoke() && len(cc.Args) > 0 {
+			switch typeShort(cc.Value.Type()) + "." + cc.Method.Name() {
+			case "cipher.AEAD.Open", "cipher.AEAD.Seal":
+				if resliceOfInput(cc.Args[0], 0, map[ssa.Value]bool{}) || der(cc.Args[0]) {
+					return cc.Method.Name() + " appends to " + firstN(pathOf(cc.Args[0]), 50) + ", storage of its input (a failed Open zeroes it)"
+				}
+			case "cipher.Stream.XORKeyStream", "cipher.Block.Encrypt", "cipher.Block.Decrypt", "cipher.BlockMode.CryptBlocks":
+				if der(cc.Args[0]) {
+					return cc.Method.Name() + " writes " + firstN(pathOf(cc.Args[0]), 50) + ", which belongs to its input"
+				}
+			}
+		}
 		switch n {
 		case "sort.Slice", "sort.SliceStable", "sort.Sort", "sort.Stable", "sort.Strings", "sort.Ints", "slices.Sort", "slices.SortFunc", "slices.Reverse":
 			if len(cc.Args) > 0 && der(cc.Args[0]) {
